@@ -501,6 +501,12 @@ namespace bloch::compiler {
         }
 
         if (expected.className.empty()) {
+            // A class reference (className set, value tag Unknown) never converts to a primitive
+            // parameter. Treating its Unknown tag as a wildcard made 'f(int)' applicable to an
+            // object argument at cost 0, so any overload set mixing primitive and class
+            // parameters became ambiguous ("method 'f' not found").
+            if (!actual.className.empty() && expected.value != ValueType::Unknown)
+                return std::nullopt;
             if (expected.value == ValueType::Unknown || actual.value == ValueType::Unknown)
                 return 0;
             if (actual.className.empty()) {
